@@ -119,16 +119,32 @@ class Execution:
                     raise ConnectionResetError("net-%s" % dev_id)
             return payload(dev_id)
 
-        def cb(pool, task_result):
+        cb_kind = cfg.get("callback")
+        cb_fail = set(cfg.get("cb_fail", []))
+
+        def cb_plain(pool, task_result):
             self.callback_calls += 1
+            if cb_kind == "raise" and task_result.device_id in cb_fail:
+                raise TaskError("cb-%s" % task_result.device_id)
             return task_result
+
+        def cb_gen(pool, task_result):
+            # a callback written as a generator: it hands the result on and may fail afterwards; a failing callback
+            # turns the result into ONE failure (what it had handed on before is withdrawn)
+            self.callback_calls += 1
+            yield task_result
+            if cb_kind == "gen-raise" and task_result.device_id in cb_fail:
+                raise TaskError("cb-%s" % task_result.device_id)
+        cb = cb_gen if cb_kind in ("gen", "gen-raise") else cb_plain
 
         def root():
             p = par.Parallel(f).tune(parallel=cfg["pool"], max_tasks=cfg["max_tasks"])
             self.net_retry = p.net_retry
             if cfg.get("callback"):
                 p.add_callback(cb)
-            if cfg.get("in_thread_callback"):
+            if cfg.get("in_thread_callback") == "gen-raise":
+                p.add_callback(cb_gen, in_thread=True)
+            elif cfg.get("in_thread_callback"):
                 p.add_callback(lambda pool, tr: tr, in_thread=True)
             ids = list(range(cfg["n"]))
             try:
@@ -168,7 +184,8 @@ class Execution:
         # read from the Parallel object as data); its failure carries the network error's text
         nr = getattr(self, "net_retry", 3)
         net_fail = {int(i) for i, k, how in cfg.get("flaky", []) if k < 0 or k > nr}
-        raising = raising | net_fail
+        cb_fail = set(cfg.get("cb_fail", [])) if cfg.get("callback") in ("raise", "gen-raise") else set()
+        raising = raising | net_fail | cb_fail
         if s.verdict == "deadlock":
             parked = sorted((t.name, t.op[0]) for t in s.threads if not t.done and not t.killed)
             kind = "hang" if any(op == "poll" for _, op in parked) else "deadlock"
@@ -194,7 +211,10 @@ class Execution:
         got_ids = [d[0] for d in self.delivered]
         for (i, res, exc) in self.delivered:
             if i in raising:
-                if exc != ("net-%s" if i in net_fail else "boom-%s") % i or res is not None:
+                if i in cb_fail and i not in set(cfg["raising"]):
+                    if "cb-%s" % i not in str(exc):
+                        out.append(({"kind": "payload", "what": "callback-failure-not-reported"}, repr((i, res, exc))))
+                elif exc != ("net-%s" if i in net_fail else "boom-%s") % i or res is not None:
                     out.append(({"kind": "payload", "what": "failure-not-reported"}, repr((i, res, exc))))
             elif res != payload(i) or exc is not None:
                 out.append(({"kind": "payload", "what": "wrong-value"}, repr((i, res, exc))))
@@ -363,6 +383,13 @@ def cfgs(tier):
         add(full, 2, pool, 25, flaky=[[0, -1, "wrapped"], [1, 3, "wrapped"]])
         add(full, 2, pool, 25, flaky=[[0, 4, "direct"]], tolerate=0)
     add(full, 2, 2, 1, flaky=[[1, -1, "direct"]], api="run")
+    # callbacks that are generators, and callbacks that fail for one id (in the parent and in the worker thread)
+    for pool in (1, 2):
+        add(full, 2, pool, 25, callback="gen")
+        add(full, 2, pool, 25, callback="gen-raise", cb_fail=[1])
+        add(full, 2, pool, 25, callback="raise", cb_fail=[0])
+    add(full, 2, 2, 25, callback="gen-raise", cb_fail=[0], api="run")
+    add(full, 2, 2, 25, callback="gen-raise", cb_fail=[1], in_thread_callback="gen-raise")
     if tier == "quick":
         for mt in (1, 25):
             add(full, 2, 2, mt)
